@@ -36,6 +36,11 @@ pub trait WorldDriver: Sized {
     /// executes, `body` runs while its borrow is held.
     fn baccess(&self, acc: &BAccess, body: &mut dyn FnMut(BObs));
 
+    /// `ecs_find!` / `ecs_find_borrow!` whose WORLD ARGUMENT is an expression yielding `w1` on its
+    /// first evaluation and `w2` on every later one (a macro must evaluate it exactly once).
+    /// Returns the result and the number of evaluations.
+    fn find_alternating(w1: &mut Self, w2: &mut Self, a: usize, borrow: bool, key: Key) -> (Option<Obs>, usize);
+
     /// Leaks (`mem::forget`) a runtime-borrow guard of one column: safe code, after which the
     /// RefCell of that column stays borrowed forever.
     fn leak_guard(&self, a: usize, col: usize, mutable: bool);
@@ -707,6 +712,24 @@ macro_rules! arch_driver {
             }
         }
 
+        pub fn find_alternating(w1: &mut $W, w2: &mut $W, borrow: bool, key: Key) -> (Option<Obs>, usize) {
+            let mut evals = 0usize;
+            let r = if borrow {
+                $crate::with_key!($A, key, k => ecs_find_borrow!({ evals += 1; if evals == 1 { &mut *w1 } else { &mut *w2 } }, k, |e: &Entity<$A>, d: &EntityDirect<$A>, $( $v: &$C ),+| {
+                    let mut o = Obs::of(e.to_raw()).with_direct(d.to_dir_any());
+                    $( o.push($v); )+
+                    o
+                }))
+            } else {
+                $crate::with_key!($A, key, k => ecs_find!({ evals += 1; if evals == 1 { &mut *w1 } else { &mut *w2 } }, k, |d: &EntityDirectAny, $( $v: &$C, )+ e: &EntityAny, _t: &EntityDirect<$A>| -> Obs {
+                    let mut o = Obs::of(e.to_raw()).with_direct(d.to_dir_any());
+                    $( o.push($v); )+
+                    o
+                }))
+            };
+            (r, evals)
+        }
+
         #[allow(unused_assignments)]
         pub fn leak_guard(w: &$W, col: usize, mutable: bool) {
             let mut i = 0usize;
@@ -987,6 +1010,9 @@ macro_rules! world_driver {
                     return;
                 }
                 match acc.arch { $( $i => $m::baccess(self, acc, body), )+ _ => unreachable!() }
+            }
+            fn find_alternating(w1: &mut Self, w2: &mut Self, a: usize, borrow: bool, key: $crate::types::Key) -> (Option<$crate::types::Obs>, usize) {
+                match a { $( $i => $m::find_alternating(w1, w2, borrow, key), )+ _ => unreachable!() }
             }
             fn leak_guard(&self, a: usize, col: usize, mutable: bool) { match a { $( $i => $m::leak_guard(self, col, mutable), )+ _ => unreachable!() } }
             fn dump(&self, a: usize) -> $crate::types::VerifDump { match a { $( $i => $m::dump(self), )+ _ => unreachable!() } }
